@@ -33,6 +33,14 @@ def _env(seed):
     e = dict(os.environ)
     e['PYTHONHASHSEED'] = str(seed)
     e['KV_SESSION_VARIANT'] = str(seed % 2)      # sessions also differ in what they did before (see bounded/keydigest.py)
+    if seed % 2:
+        # ... and in the rest of the process state a key must not depend on: C locale without UTF-8 mode (file-system encoding
+        # ascii), another working directory is used by the session units, python -O (see _py_args)
+        e['LC_ALL'] = 'C'
+        e['LANG'] = 'C'
+        e['PYTHONUTF8'] = '0'
+        e['PYTHONCOERCECLOCALE'] = '0'
+        e['PYTHONIOENCODING'] = 'utf-8'
     e['PYTHONDONTWRITEBYTECODE'] = '1'
     pp = [VERIF]
     if os.environ.get('KLEPTO_REPO'):
@@ -61,7 +69,7 @@ def units(tier, seed):
 
 
 def _digests(mode, lo, hi, seed, detail=None, main_detail=None):
-    cmd = [_py(), '-m', 'bounded.keydigest', mode, str(lo), str(hi)]
+    cmd = [_py()] + (['-O'] if seed % 2 else []) + ['-m', 'bounded.keydigest', mode, str(lo), str(hi)]
     if detail:
         cmd += ['--detail'] + [str(x) for x in detail]
     if main_detail is not None:
@@ -124,7 +132,7 @@ def _session(kind, km, s1, s2):
         loc = os.path.join(d, 'store.db' if kind == 'sql' else ('store.pkl' if kind == 'file' else 'store'))
         infos = []
         for mode, seed in (('write', s1), ('read', s2)):
-            p = subprocess.run([_py(), '-m', 'bounded.session_e2e', mode, kind, km, loc], cwd=VERIF, env=_env(seed),
+            p = subprocess.run([_py()] + (['-O'] if seed % 2 else []) + ['-m', 'bounded.session_e2e', mode, kind, km, loc], cwd=VERIF, env=_env(seed),
                                capture_output=True, text=True, timeout=600)
             if p.returncode != 0:
                 return True, '%s session on %s archive with %s crashed: %s' % (mode, kind, km, p.stderr[-400:]), None
